@@ -409,6 +409,24 @@ func C16(tier string) int {
 		}
 	})
 	run.Counter("random_supplement", int64(len(rcs)))
+	// bodies whose line ends fall on and around the 4096-octet boundaries of the client's write buffer, the neighbouring lines
+	// each within the line limit but not together
+	for _, shift := range []int{-2, -1, 0, 1, 2} {
+		l3 := 4095 - 3004 + shift
+		body := []byte(strings.Repeat("a", 1500) + "\r\n" + strings.Repeat("b", 1500) + "\r\n" + strings.Repeat("c", l3) + "\r\n" + strings.Repeat("d", 1500) + "\r\n.e\r\n" + strings.Repeat("f", 1990) + "\r\n")
+		for _, lmtp := range []bool{false, true} {
+			for _, cuts := range [][]int{nil, {4096}, {4095}, {1000, 5000}} {
+				c := C16Case{LMTP: lmtp, Body: body, Cuts: cuts, Env: 0}
+				f := evalC16(c)
+				run.Eval(true)
+				if f != nil {
+					c.Show = fmt.Sprintf("4 lines with a line end at octet %d", 4095+shift)
+					run.Violate("c16", c, f, func() *h.Finding { return evalC16(c) })
+					run.Outcome("violation:" + f.Sig)
+				}
+			}
+		}
+	}
 	// long sessions
 	var lcs []C16LongCase
 	for _, lmtp := range []bool{false, true} {
